@@ -260,7 +260,32 @@ func t2WholeProgram(c *Ctx, r *Report, p *propDef) {
 	}
 	switch r.Prop {
 	case "C06", "C02", "C19":
-		jobs = append(jobs, job{rule: r.Prop + "-T2", what: "time / randomness / environment / file / network sources reachable from the per-line functions", roots: linePath(), forbidden: nondetPrefixes})
+		jobs = append(jobs, job{rule: r.Prop + "-T2", what: "time / randomness / environment / file / network sources reachable from the per-line functions", roots: linePath(), forbidden: nondetPrefixes,
+			allowed: func(h wpHit) bool {
+				// a direct call from a function of the package whose every call of that source the
+				// quick rule judged diagnostic-only (the result reaches stderr and nothing else)
+				if len(h.Chain) < 2 {
+					return false
+				}
+				for _, f := range c.SortedFuncs() {
+					if f.String() != h.Chain[1] {
+						continue
+					}
+					n, okAll := 0, true
+					allInstrs(f, func(i ssa.Instruction) {
+						cc := callCommonOf(i)
+						if cc == nil || calleeKey(cc) != h.Source {
+							return
+						}
+						n++
+						if ok, _ := diagnosticOnlySourceCall(c, i, c.SortedFuncs()); !ok {
+							okAll = false
+						}
+					})
+					return n > 0 && okAll
+				}
+				return false
+			}})
 	case "C10", "C09":
 		jobs = append(jobs, job{rule: r.Prop + "-T2", what: "time / randomness / environment sources reachable from Encrypt / Decrypt (third-party code included)", roots: []*ssa.Function{c.Fn("Encrypt"), c.Fn("Decrypt")}, forbidden: nondetPrefixes})
 	case "C13", "C12", "C15":
